@@ -736,6 +736,12 @@ func (in *absInterp) call(fr *absFrame, c *ssa.CallCommon) aval {
 		args = append(args, in.get(fr, a))
 	}
 	if c.IsInvoke() {
+		if h, ok := in.hooks["invoke:"+c.Method.Name()]; ok {
+			recv := in.get(fr, c.Value)
+			if v, handled := h(in, c, append([]aval{recv}, args...)); handled {
+				return v
+			}
+		}
 		in.fail("%s: interface method call %s", fr.fn.Name(), c.Method.Name())
 	}
 	if bi, ok := c.Value.(*ssa.Builtin); ok {
